@@ -4,6 +4,7 @@ package gorums
 
 import (
 	"sync/atomic"
+	"time"
 
 	"google.golang.org/grpc/connectivity"
 	"google.golang.org/protobuf/reflect/protoreflect"
@@ -53,14 +54,20 @@ func vRouteMiss(c *channel, msgID uint64) {
 }
 
 // VerifRouterCount returns the number of response routers currently
-// registered on the node's channel (-1 if the node has no channel).
+// registered on the node's channel (-1 if the node has no channel, -2 if the
+// router mutex stays held: the observer must not hang with a wedged library).
 func VerifRouterCount(n *RawNode) int {
 	if n == nil || n.channel == nil {
 		return -1
 	}
-	n.channel.responseMut.Lock()
-	defer n.channel.responseMut.Unlock()
-	return len(n.channel.responseRouters)
+	for i := 0; i < 600; i++ {
+		if n.channel.responseMut.TryLock() {
+			defer n.channel.responseMut.Unlock()
+			return len(n.channel.responseRouters)
+		}
+		time.Sleep(5 * time.Millisecond)
+	}
+	return -2
 }
 
 // VerifSetNextMsgID makes the manager continue its message IDs after base, so
